@@ -2,6 +2,7 @@ package checks
 
 import (
 	"fmt"
+	"golang.org/x/text/unicode/norm"
 	"regexp"
 	"strings"
 	"testing"
@@ -164,7 +165,10 @@ func (x *c18Tree) stmt(s bn.Stmt) bn.Stmt {
 // ---- (a)-(d) on the token stream ----
 
 var c18FreshLatin = []string{"zq", "renamed", "Alt", "v_", "_u", "nm"}
-var c18FreshBangla = []string{"নতুন", "চলক", "মান_", "ক্ষ"}
+
+// (the second half are names that NFC would rewrite — precomposed letters excluded from composition — and
+// their decomposed spellings: names are used as written, never normalised)
+var c18FreshBangla = []string{"নতুন", "চলক", "মান_", "ক্ষ", "সম\u09df", "ব\u09dc", "গা\u09dd", "সম\u09af\u09bc", "ব\u09a1\u09bc", "\u09df", "ক\u09c7\u09be", "ক\u09cb"}
 
 // userNames collects identifier spellings that are variables, functions or
 // parameters (not property names after '.', not object keys before ':', not
@@ -375,6 +379,10 @@ func c18Normalize(s string, inverse map[string]string) string {
 	}
 	for _, k := range keys {
 		s = strings.ReplaceAll(s, k, inverse[k])
+		// দেখাও writes NFC: a renamed name printed as part of a function value appears in that form
+		if nk := norm.NFC.String(k); nk != k {
+			s = strings.ReplaceAll(s, nk, inverse[k])
+		}
 	}
 	return s
 }
